@@ -62,6 +62,8 @@
 #include <limits>
 #include <map>
 #include <sys/stat.h>
+#include <dirent.h>
+#include <unistd.h>
 
 using namespace stir;
 typedef DiscretisedDensity<3, float> TargetT;
@@ -1294,9 +1296,16 @@ main(int argc, char** argv)
   g_outdir += "/s" + std::to_string(seed) + (thorough ? "t" : "q");
   ::mkdir(g_outdir.c_str(), 0777);
   { // stale files of an earlier run with the same seed must not be mistaken for saved iterates
-    const std::string cmd = "rm -f " + g_outdir + "/*.hv " + g_outdir + "/*.v " + g_outdir + "/*.ahv";
-    if (std::system(cmd.c_str()) != 0)
-      return 3;
+    if (DIR* dir = ::opendir(g_outdir.c_str()))
+      {
+        std::vector<std::string> names;
+        while (struct dirent* e = ::readdir(dir))
+          if (e->d_name[0] != '.')
+            names.push_back(e->d_name);
+        ::closedir(dir);
+        for (auto& n : names)
+          ::unlink((g_outdir + "/" + n).c_str());
+      }
   }
 
   const int ngeo = thorough ? 72 : 8;
